@@ -209,6 +209,7 @@ def run(ctx):
     # wrote where the rule selected under another subset does not (convslq: pmovsxdq under SSE4.1, the unpack sequence without)
     importlib.import_module("rules.c17").two_operand_dest_defined(db, rep, "R-DEST-DEFINED")
     target_flags_from_request(db, rep)
+    importlib.import_module("rules.c17").two_operand_source_preserved(db, rep, "R-SOURCE-PRESERVED")
 
 
 
